@@ -17,8 +17,8 @@ RouteCases == {c \in [nS : 1..MaxN, nE : 1..MaxN, hS : SUBSET (1..MaxN), hE : SU
 Species == {"A", "B"}
 (* A: the start molecule is the smaller one (roles swapped, the end is fixed and has hydrogens 2 and 4);
    B: the start molecule is the larger one and has hydrogens 1 and 5 *)
-Sp == [s \in Species |-> IF s = "A" THEN [nS |-> 3, nE |-> 5, hS |-> {}, hE |-> {2, 4}, valid |-> <<<<1, 2>>, <<3, 5>>, <<2, 1>>, <<1, 4>>>>, vdef |-> {0, 1}]
-                                     ELSE [nS |-> 6, nE |-> 4, hS |-> {1, 5}, hE |-> {}, valid |-> <<<<5, 1>>, <<2, 3>>, <<6, 4>>, <<1, 1>>, <<2, 2>>>>, vdef |-> {0}]]
+Sp == [s \in Species |-> IF s = "A" THEN [nS |-> 3, nE |-> 5, hS |-> {}, hE |-> {2, 4}, valid |-> <<<<1, 2>>, <<3, 5>>, <<2, 1>>, <<1, 4>>, <<3, 5>>>>, vdef |-> {0, 1}]
+                                     ELSE [nS |-> 6, nE |-> 4, hS |-> {1, 5}, hE |-> {}, valid |-> <<<<5, 1>>, <<2, 3>>, <<6, 4>>, <<1, 1>>, <<2, 2>>, <<5, 1>>, <<5, 1>>>>, vdef |-> {0}]]
 Entries == {"absent", "none", "valid", "bad"}
 Dicts == {[given |-> FALSE, entry |-> [s \in Species |-> "absent"], extra |-> "no"]} \cup
          [given : {TRUE}, entry : [Species -> Entries], extra : {"no", "unknown", "incomplete"}]
